@@ -168,10 +168,12 @@ MODES = [2, 3, 4, None]    # bootloader, signer, ui heartbeat, no app (GET_MODE 
 class AdminDevice(SimDevice):
     onboard_pin = None
     sgx_personality = False
+    wipes_on_last_retry = False
 
     def __init__(self, mode):
         super().__init__()
         self.mode = mode
+        self.unlock_while_not_onboarded = []
         self.touched_while_onboarded = []     # seed bytes / wipe / SGX onboard commands that reached an onboarded device
         # (PIN bytes also precede the unlock that follows a Ledger onboarding: they are judged by the wipe they lead to)
 
@@ -179,6 +181,16 @@ class AdminDevice(SimDevice):
         a = blist(apdu)
         if a[1] in ((0x44, 0x07) if not self.sgx_personality else (0xA0,)) and self.onboarded == 1:
             self.touched_while_onboarded.append(a[1])
+        if a[1] in (0xFE, 0xA3):
+            # UNLOCK: a PIN presented to a device that is not onboarded (e.g. one that just wiped itself) is recorded
+            if self.onboarded != 1:
+                self.unlock_while_not_onboarded.append(a[1])
+            r = SimDevice.handle(self, apdu)
+            if self.wipes_on_last_retry and self.unlock_ok == 0:
+                self.retries = max(0, self.retries - 1)
+                if self.retries == 0:
+                    self.onboarded = 0          # the last retry is gone: the device wipes itself
+            return r
         if a[1] == 0xA0:
             r = SimDevice.handle(self, apdu)
             self.onboarded = 1
@@ -320,13 +332,38 @@ def onboarding_lost_answer(k: int, kind: int, after: bool) -> bool:
         return d.touched_while_onboarded == []
 
 
+@obligation(tier="quick", parts=2, timeout=200, part_names=["ledger", "sgx"],
+            bounds="unlock of an onboarded device in bootloader mode whose retry counter (0..3) and reaction to the PIN (accept / "
+                   "refuse) are symbolic; a device that refuses its last retry wipes itself; the PIN is given on the command line or "
+                   "typed (symbolic), and the operator has further PINs ready to type: no PIN is presented to the device once it is no "
+                   "longer onboarded",
+            examples=[(0, dict(retries=1, ul=0, typed=True)), (1, dict(retries=1, ul=0, typed=True)), (0, dict(retries=3, ul=1, typed=False)),
+                      (1, dict(retries=2, ul=0, typed=True))])
+def unlock_last_retry(retries: int, ul: int, typed: bool) -> bool:
+    """
+    pre: 0 <= retries <= 3 and 0 <= ul <= 1
+    post: _
+    """
+    platform = ["ledger", "sgx"][part()]
+    d = AdminDevice(2)
+    d.onboarded = 1
+    d.echo_ok = True
+    d.unlock_ok = ul
+    d.retries = retries
+    d.wipes_on_last_retry = True
+    opts = Options(pin=None if typed else "abcd1234")
+    with Env(platform, d, typed_pins=["abcd1234", "zz11yy22", "qq22ww33"] if typed else []):
+        run(unlock.do_unlock, opts)
+    return d.unlock_while_not_onboarded == []
+
+
 # (command, focus): what is symbolic / where the PINs come from
 UC_FOCUS = ["device state", "pins and flags, PINs on the command line", "pins and flags, new PIN typed", "pins and flags, current PIN typed",
             "pins and flags, both PINs typed"]
 UC_PARTS = [(p, f) for f in (0, 1) for p in range(4)] + [(0, 3), (1, 3)] + [(p, f) for f in (2, 3, 4) for p in (2, 3)]
 
 
-@obligation(tier="quick", parts=len(UC_PARTS), timeout=200,
+@obligation(tier="quick", parts=len(UC_PARTS), timeout=320,
             part_names=lambda i: ["ledger/unlock", "sgx/unlock", "ledger/changepin", "sgx/changepin"][UC_PARTS[i][0]] +
             "/symbolic: " + UC_FOCUS[UC_PARTS[i][1]],
             bounds="device mode x onboard byte 0..255 x echo x unlock answer symbolic; PIN / new PIN symbolic selections from 9 strings; "
